@@ -454,26 +454,31 @@ func (u *Unit) emitEvent(st *State, kind string, args []Val) {
 	u.set(st, "clock", "(+ "+clk+" 1)")
 }
 
-// havocEvents forgets how many events of a kind happened (the prefix is kept).
-func (u *Unit) havocEvents(st *State, kind string) {
-	sorts := u.eventSorts(kind)
-	old := u.get(st, "cnt_"+kind)
-	u.havocComp(st, "cnt_"+kind)
-	for i := range sorts {
-		comp := fmt.Sprintf("arg_%s_%d", kind, i)
-		u.setCompSort(comp, "(Array Int "+sorts[i]+")")
-		oa := u.get(st, comp)
-		na := u.havocComp(st, comp)
+// havocEvents forgets how many events of the given kinds happened during a call (prefixes are kept). All new events
+// of all kinds lie in one window of the ghost clock: [clock before the call, clock after it).
+func (u *Unit) havocEvents(st *State, kinds ...string) {
+	if len(kinds) == 0 {
+		return
+	}
+	oclk := u.get(st, "clock")
+	nclk := u.havocComp(st, "clock")
+	for _, kind := range kinds {
+		sorts := u.eventSorts(kind)
+		old := u.get(st, "cnt_"+kind)
+		u.havocComp(st, "cnt_"+kind)
+		for i := range sorts {
+			comp := fmt.Sprintf("arg_%s_%d", kind, i)
+			u.setCompSort(comp, "(Array Int "+sorts[i]+")")
+			oa := u.get(st, comp)
+			na := u.havocComp(st, comp)
+			q := u.freshName("q")
+			u.assume(fmt.Sprintf("(forall ((%s Int)) (=> (and (<= 0 %s) (< %s %s)) (= (select %s %s) (select %s %s))))", q, q, q, old, na, q, oa, q))
+		}
+		oa := u.get(st, "at_"+kind)
+		na := u.havocComp(st, "at_"+kind)
 		q := u.freshName("q")
 		u.assume(fmt.Sprintf("(forall ((%s Int)) (=> (and (<= 0 %s) (< %s %s)) (= (select %s %s) (select %s %s))))", q, q, q, old, na, q, oa, q))
+		q2 := u.freshName("q")
+		u.assume(fmt.Sprintf("(forall ((%s Int)) (=> (and (<= %s %s) (< %s %s)) (and (<= %s (select %s %s)) (< (select %s %s) %s))))", q2, old, q2, q2, u.get(st, "cnt_"+kind), oclk, na, q2, na, q2, nclk))
 	}
-	oa := u.get(st, "at_"+kind)
-	oclk := u.get(st, "clock")
-	na := u.havocComp(st, "at_"+kind)
-	q := u.freshName("q")
-	u.assume(fmt.Sprintf("(forall ((%s Int)) (=> (and (<= 0 %s) (< %s %s)) (= (select %s %s) (select %s %s))))", q, q, q, old, na, q, oa, q))
-	nclk := u.havocComp(st, "clock")
-	// events added by the callee happened during the call
-	q2 := u.freshName("q")
-	u.assume(fmt.Sprintf("(forall ((%s Int)) (=> (and (<= %s %s) (< %s %s)) (and (<= %s (select %s %s)) (< (select %s %s) %s))))", q2, old, q2, q2, u.get(st, "cnt_"+kind), oclk, na, q2, na, q2, nclk))
 }
